@@ -506,7 +506,9 @@ func changingInputs(c *Ctx, variant string) {
 	chains := []vchain{
 		{"Str", `e.Str(key[i], str[i])`, func(e *zerolog.Event, i int) { e.Str(t.keys[i], t.strs[i]) }},
 		{"Strs", `e.Strs(key[i], strs[i])`, func(e *zerolog.Event, i int) { e.Strs(t.keys[i], t.sstr[i]) }},
-		{"Bytes-Hex-RawJSON", `e.Bytes(key[i], b[i]).Hex("h", b[i]).RawJSON("r", raw[i])`, func(e *zerolog.Event, i int) { e.Bytes(t.keys[i], t.bytes[i]).Hex("h", t.bytes[i]).RawJSON("r", t.raw[i]) }},
+		{"Bytes-Hex-RawJSON", `e.Bytes(key[i], b[i]).Hex("h", b[i]).RawJSON("r", raw[i])`, func(e *zerolog.Event, i int) {
+			e.Bytes(t.keys[i], t.bytes[i]).Hex("h", t.bytes[i]).RawJSON("r", t.raw[i])
+		}},
 		{"Bool", `e.Bool(key[i], i%3 == 0)`, func(e *zerolog.Event, i int) { e.Bool(t.keys[i], i%3 == 0) }},
 		{"Int-widths", `e.Int(key[i], n[i]).Int8("a", int8(n[i])).Int16("b", int16(n[i])).Int32("c", int32(n[i])).Int64("d", m[i])`, func(e *zerolog.Event, i int) {
 			e.Int(t.keys[i], t.ints[i]).Int8("a", int8(t.ints[i])).Int16("b", int16(t.ints[i])).Int32("c", int32(t.ints[i])).Int64("d", t.i64s[i])
@@ -515,7 +517,9 @@ func changingInputs(c *Ctx, variant string) {
 			e.Uint(t.keys[i], uint(t.u64s[i])).Uint8("a", uint8(t.u64s[i])).Uint16("b", uint16(t.u64s[i])).Uint32("c", uint32(t.u64s[i])).Uint64("d", t.u64s[i])
 		}},
 		{"Ints", `e.Ints(key[i], ints[i])`, func(e *zerolog.Event, i int) { e.Ints(t.keys[i], t.sint[i]) }},
-		{"Floats", `e.Float64(key[i], f[i]).Float32("g", g[i]).Floats64("fs", fs[i])`, func(e *zerolog.Event, i int) { e.Float64(t.keys[i], t.f64s[i]).Float32("g", t.f32s[i]).Floats64("fs", t.sf64[i]) }},
+		{"Floats", `e.Float64(key[i], f[i]).Float32("g", g[i]).Floats64("fs", fs[i])`, func(e *zerolog.Event, i int) {
+			e.Float64(t.keys[i], t.f64s[i]).Float32("g", t.f32s[i]).Floats64("fs", t.sf64[i])
+		}},
 		{"Time-Times", `e.Time(key[i], t[i]).Times("ts", ts[i])`, func(e *zerolog.Event, i int) { e.Time(t.keys[i], t.times[i]).Times("ts", t.stim[i]) }},
 		{"Dur-Durs-TimeDiff", `e.Dur(key[i], d[i]).Durs("ds", ds[i]).TimeDiff("td", t[i], t[(i+1)%64])`, func(e *zerolog.Event, i int) {
 			e.Dur(t.keys[i], t.durs[i]).Durs("ds", t.sdur[i]).TimeDiff("td", t.times[i], t.times[(i+1)%64])
